@@ -60,6 +60,18 @@ PROPS = {
                       "one remote chain and one bridge deployment id (claims of other deployments are filtered out by GetAttestationMapping)"],
         assumptions=["validators stay bonded (checkOrchestratorValidatorInSet); pruning (cutoff 1000 nonces) is not reached"],
     ),
+    "C13": dict(
+        lean_modules=["PalomaModel.Props.C13"],
+        harness_test="TestBridge", env={"VERIF_PROP": "C13"},
+        n_quick=120, n_thorough=1500, thorough_seeds=8, timeout_quick=900,
+        spec_ops=["evidence"],
+        rule="bridge generator (see C01) with 22% evidence ops: a recorded checkpoint of any batch at any stage of its life (built, re-estimated, cancelled, executed) signed by a validator's real secp256k1 key "
+             "is replayed by a third party as MsgSubmitBadSignatureEvidence — genuine (must be refused), forged timeout / forged estimate (jails the signer), or signed by an unregistered key (refused); "
+             "distinct = distinct op text; non-trivial = at least one accepted op",
+        trusted_base=[SDK_TRUST, "ECDSA recover/verify soundness and keccak collision freeness: a checkpoint is identified by (token, batch nonce, gas estimate, content variant)",
+                      "bridge re-deployment (new compass id) while a batch is open is outside the property's quantifier and is not generated"],
+        assumptions=[],
+    ),
 }
 
 LEVEL_TEXT = ("Lean 4 theorems (all inputs / histories / fault points, no bounds) about an executable model of the code; the model is tied to the Go code on "
